@@ -110,6 +110,10 @@ def build_program(case):
             fail = {"at": i, "needle": c["sym"]}
         elif c["sym"] == "probe_raise":
             fail = {"at": i, "needle": "probe raised <%s>" % describe(tag, c["args"])}
+        elif c["sym"] == "probe_raise_multi":
+            fail = {"at": i, "needle": ["probe raised first line", "second line <%s>" % describe(tag, c["args"]), "third line"]}
+        elif c["sym"] == "probe_raise_blank":
+            fail = {"at": i, "needle": "probe raised after a blank line <%s>" % describe(tag, c["args"])}
         elif (c["sym"] in ("probe_first", "probe_last")) and not c["args"]:
             fail = {"at": i, "needle": c["sym"] + ": no arguments"}
         if fail:
@@ -236,7 +240,7 @@ def gen_cases(tier, seed):
         calls = []
         for _ in range(rng.range(1, 4)):
             args = [(k, rng.below(len(VALUES[k]))) for k in [rng.choice(KINDS) for _ in range(rng.range(0, 6))]]
-            sym = rng.weighted([("probe_echo", 5), ("probe_none", 2), ("probe_first", 2), ("probe_last", 2), ("probe_raise", 1), ("probe_absent", 1),
+            sym = rng.weighted([("probe_echo", 5), ("probe_none", 2), ("probe_first", 2), ("probe_last", 2), ("probe_raise", 1), ("probe_absent", 1), ("probe_raise_multi", 1), ("probe_raise_blank", 1),
                                 ("long63", 1), ("long70", 1), ("long71", 1), ("long_absent64", 1)])
             lib = rng.weighted([("a", 5), ("b", 5), ("bare", 2), ("lazy", 2), ("missing", 1), ("bs", 2), ("missing_bs", 1), ("versioned", 2), ("missing_dll", 1), ("missing_noext", 1)])
             if sym in ("probe_first", "probe_last") and not args and rng.chance(2, 3):
@@ -333,8 +337,10 @@ def run_case(case):
             return failr("lost-output", "output before the failing call is not intact: expected %r, got %r" % (exp, lines), e)
         if len(lines) > len(exp):
             return failr("continued-after-fault", "instructions after the failing call ran: extra output %r" % lines[len(exp):][:3], e)
-        if fail["needle"] not in err:
-            return failr("message-lost", "the run-time error does not carry the message %r: %s" % (fail["needle"], err[-400:]), e)
+        needles = fail["needle"] if isinstance(fail["needle"], list) else [fail["needle"]]
+        for nd in needles:
+            if nd not in err:
+                return failr("message-lost", "the run-time error does not carry the message %r: %s" % (nd, err[-400:]), e)
     return {"ok": True, "stats": finish(procs)}
 
 
